@@ -67,6 +67,8 @@ impl PropositionalConjunction {
 }
 
 pub struct EmptyDomain;
+#[verifier::external]
+impl std::fmt::Debug for EmptyDomain { fn fmt(&self, f: &mut std::fmt::Formatter<'_>) -> std::fmt::Result { Ok(()) } }
 pub enum Inconsistency {
     EmptyDomain,
     Conflict(PropositionalConjunction),
